@@ -12,6 +12,7 @@ import (
 	"verif/fsmodel"
 	"verif/memfs"
 	"verif/par"
+	"verif/xfer"
 )
 
 func init() { register("C02", runC02, replayC02) }
@@ -28,6 +29,8 @@ type History struct {
 	FilterUID bool `json:"filteruid,omitempty"`
 	// FilterShift: the receiver-side Filter adds 1000 to uid and gid (not idempotent)
 	FilterShift bool `json:"filtershift,omitempty"`
+	// MetaAll: every sync is a metadata-only receive whose selector selects every path
+	MetaAll bool `json:"metaall,omitempty"`
 }
 
 func (h History) String() string {
@@ -35,7 +38,7 @@ func (h History) String() string {
 	for _, st := range h.Steps {
 		s = append(s, describeEdits(st))
 	}
-	return fmt.Sprintf("base=%s; sync; %s; sync (differ=%d mem=%v filteruid=%v)", h.Base, strings.Join(s, "; sync; "), h.Differ, h.Mem, h.FilterUID || h.FilterShift)
+	return fmt.Sprintf("base=%s; sync; %s; sync (differ=%d mem=%v filteruid=%v filtershift=%v metadata-only-all=%v)", h.Base, strings.Join(s, "; sync; "), h.Differ, h.Mem, h.FilterUID, h.FilterShift, h.MetaAll)
 }
 
 // runHistory plays a history; it returns the observation of the last sync and the
@@ -50,9 +53,32 @@ func runHistory(h History, notify bool) (*SyncObs, fsmodel.Tree, string) {
 				return nil, "materialize: " + err.Error()
 			}
 		}
+		if h.MetaAll {
+			c.MetaOn, c.MetaSel = true, cur.Paths()
+		}
 		o := d.transfer(c, cur)
 		if o.Err != "" {
 			return o, "infra: " + o.Err
+		}
+		if h.MetaAll {
+			// the listing file is not an entry of the transfer (it is removed as stale and written anew each time)
+			strip := func(t fsmodel.Tree) fsmodel.Tree {
+				var out fsmodel.Tree
+				for _, n := range t {
+					if n.Path != listingName {
+						out = append(out, n)
+					}
+				}
+				return out
+			}
+			o.Before, o.After = strip(o.Before), strip(o.After)
+			var notes []xfer.Note
+			for _, n := range o.Notes {
+				if n.Path != listingName {
+					notes = append(notes, n)
+				}
+			}
+			o.Notes = notes
 		}
 		if !o.Res.OK() {
 			return o, fmt.Sprintf("transfer failed: send=%v recv=%v timeout=%v", o.Res.SendErr, o.Res.RecvErr, o.Res.TimedOut)
@@ -236,6 +262,14 @@ func c02Histories(tier string) []History {
 				if differ == 0 {
 					out = append(out, History{Base: base, Steps: [][]Edit{{e}}, Differ: differ, Mem: true})
 				}
+			}
+		}
+		// metadata-only receives that select everything: the same incremental guarantees (a source entry named like
+		// the listing file is not transferred in that mode, so trees holding one are left out here)
+		if base.Find(listingName) == nil {
+			out = append(out, History{Base: base, Steps: [][]Edit{{}}, MetaAll: true, Mem: true})
+			for _, e := range edits {
+				out = append(out, History{Base: base, Steps: [][]Edit{{e}}, MetaAll: true, Mem: true})
 			}
 		}
 		// a receiver-side Filter that shifts ownership (applying it twice is not the same as applying it once)
